@@ -10,8 +10,16 @@ from ..harness import Violation
 PROP = "C01"
 
 
-def spell_root(sp, top, sbroot):
+def spell_root(sp, top, sbroot, cwd=""):
     kind = sp["kind"]
+    if kind == "dot":
+        if cwd != top:
+            raise CaseInvalid("dot spelling needs cwd = root")
+        return "."
+    if kind == "updir":
+        if not cwd:
+            raise CaseInvalid("updir spelling needs a cwd")
+        return os.path.relpath(top, cwd)
     if kind == "default":
         return "."
     if kind == "rel":
@@ -38,7 +46,9 @@ class Check:
     def gen(self, rng, tier, index):
         nroots = rng.choice([1, 1, 1, 2, 2, 3])
         tops = rng.sample(gen.SAFE_ROOTS, nroots)
-        world = gen.gen_tree(rng, tops, max_entries=rng.choice([3, 8, 15, 30, 45]), max_depth=rng.choice([2, 3, 5, 6]),
+        big = tier == "thorough" and rng.random() < 0.1
+        world = gen.gen_tree(rng, tops, max_entries=rng.choice([3, 8, 15, 30, 45]) if not big else rng.choice([120, 250]), max_depth=rng.choice([2, 3, 5, 6]) if not big else rng.choice([3, 10]),
+                             kinds={"file": 10, "dir": 5, "symlink": 1.5, "fifo": 0.4, "sock": 0.3, "chr": 0.2, "blk": 0.2},
                              adversarial=rng.choice([0, 0.15, 0.5]))
         dirs = [n["path"] for n in world["nodes"] if n["type"] == "dir"]
         roots = []
@@ -62,6 +72,12 @@ class Check:
                 r["mind"] = r["maxd"] = 0
                 r["mode"] = ""
             roots.append(r)
+        cwd = ""
+        if not single_default and rng.random() < 0.2 and "/" not in roots[0]["top"]:
+            cwd = roots[0]["top"]
+            roots[0]["sp"] = {"kind": "dot"}
+            for r in roots[1:]:
+                r["sp"] = {"kind": rng.choice(["updir", "abs"])}
         cls, plan = gen.gen_env(rng, world)
         multidev = False
         if rng.random() < 0.25 and len(dirs) >= 2:
@@ -84,7 +100,7 @@ class Check:
                 else:
                     st[p] = {"ino": 5000 + i, "dev": 99}
             plan["stat"] = st
-        return {"world": world, "roots": roots, "plan": plan, "order_class": cls, "multidev": multidev,
+        return {"world": world, "roots": roots, "plan": plan, "order_class": cls, "multidev": multidev, "cwd": cwd,
                 "cwd_default": single_default, "select_word": rng.choice(["select ", ""])}
 
     def sample_view(self, case):
@@ -103,17 +119,23 @@ class Check:
                     c = copy.deepcopy(case)
                     c["roots"][i][k] = v
                     yield c
-            if r["sp"]["kind"] not in ("rel", "default"):
+            if r["sp"]["kind"] not in ("rel", "default") and not case.get("cwd"):
                 c = copy.deepcopy(case)
                 c["roots"][i]["sp"] = {"kind": "rel"}
                 yield c
+        if case.get("cwd"):
+            c = copy.deepcopy(case)
+            c["cwd"] = ""
+            for r in c["roots"]:
+                r["sp"] = {"kind": "rel"}
+            yield c
 
     def query(self, case, sbroot, flip=False):
         parts = []
         for r in case["roots"]:
             if r["sp"]["kind"] == "default":
                 continue
-            s = spell_root(r["sp"], r["top"], sbroot)
+            s = spell_root(r["sp"], r["top"], sbroot, case.get("cwd", ""))
             if r["mind"]:
                 s += " mindepth %d" % r["mind"]
             if r["maxd"]:
@@ -159,7 +181,7 @@ class Check:
         with ctx.sandbox(world) as sb:
             gen.validate_model(world, sb.root)
             default = case["roots"][0]["sp"]["kind"] == "default"
-            cwd = case["roots"][0]["top"] if default else ""
+            cwd = case["roots"][0]["top"] if default else case.get("cwd", "")
             multisets = {}
             for flip in (False, True):
                 if default and flip:
@@ -174,7 +196,7 @@ class Check:
                 expected = collections.Counter()
                 per_root = []
                 for r in case["roots"]:
-                    sp = spell_root(r["sp"], r["top"], sb.root)
+                    sp = spell_root(r["sp"], r["top"], sb.root, cwd)
                     walk = gen.ref_walk(world, r["top"])
                     exp = {}
                     for rel, node, lvl in walk:
